@@ -46,4 +46,4 @@ Definition occurs (k : kind) (n : nat) (evs : list ev) : Prop := In (k, n) evs.
 Definition declared (n : nat) (evs : list ev) : Prop := occurs KGlobal n evs \/ occurs KNonlocal n evs.
 Definition py_local (n : nat) (evs : list ev) : Prop := (occurs KStore n evs \/ occurs KDel n evs) /\ ~ declared n evs.
 Definition py_free (n : nat) (evs : list ev) : Prop := occurs KLoad n evs /\ ~ occurs KStore n evs /\ ~ occurs KDel n evs /\ ~ declared n evs.
-Definition no_walrus (evs : list ev) : Prop := forall n, ~ In (KWalrus, n) evs.
+Definition no_walrus_ev (evs : list ev) : Prop := forall n, ~ In (KWalrus, n) evs.
